@@ -89,7 +89,9 @@ func buildView(native bool, harnessPkgs []string) (*View, error) {
 	if err != nil {
 		return nil, err
 	}
-	// 2. harness files
+	// 2. harness files (a harness package also gets the exported helpers of
+	// the harness files of the repository packages it builds on)
+	harnessPkgs = withHarnessDeps(harnessPkgs)
 	for _, pk := range harnessPkgs {
 		dir := filepath.Join(verifDir, "harness", pk)
 		ents, _ := os.ReadDir(dir)
@@ -149,6 +151,28 @@ func buildView(native bool, harnessPkgs []string) (*View, error) {
 	}
 	sort.Strings(v.Rewritten)
 	return v, nil
+}
+
+var harnessDeps = map[string][]string{"remote": {"actor"}, "cluster": {"actor", "remote"}}
+
+func withHarnessDeps(pkgs []string) []string {
+	seen := map[string]bool{}
+	var out []string
+	var add func(p string)
+	add = func(p string) {
+		if seen[p] {
+			return
+		}
+		seen[p] = true
+		for _, d := range harnessDeps[p] {
+			add(d)
+		}
+		out = append(out, p)
+	}
+	for _, p := range pkgs {
+		add(p)
+	}
+	return out
 }
 
 // substituteImports replaces import path literals in place (line numbers are
